@@ -71,7 +71,7 @@ CURATED = {
         "CallDetails.__init__": ("C01", "C05", "C06", "C07", "C08", "C09", "C14",), "make_details": ("C01", "C05", "C06", "C07", "C08", "C09", "C14",), "make_kernel_args": ("C01", "C05", "C06", "C07", "C08", "C09", "C10", "C11", "C14", "C16",),
         "correct_theta_weights": ("C01", "C05",), "convert_magnetism": ("C06", "C08", "C15"), "dispersion_mesh": ("C01", "C10"),
     },
-    "kerneldll": { "DllKernel.release": ("C11",), "DllModel.release": ("C11", "C18",), "DllModel.__getstate__": ("C11",), "DllModel.__setstate__": ("C11",),
+    "kerneldll": { "DllKernel.release": ("C11",), "DllModel.release": ("C11", "C18",), "DllModel.__getstate__": ("C11", "C18"), "DllModel.__setstate__": ("C11", "C18"),
         MODULE_BODY: ("C17", "C18"),
         # make_dll and compile_model are judged by the structural rules of C15/C17/C18 only: temporary-file naming, compiler
         # flags and directory handling may change without touching any property
@@ -81,7 +81,7 @@ CURATED = {
     },
     "kernelpy": { "PyModel.__init__": ("C09",), "PyKernel.release": ("C11",), "PyInput.release": ("C11",), "PyModel.release": ("C11",),
         MODULE_BODY: ("C09",),
-        "PyModel.make_kernel": ("C09",), "PyInput.__init__": ("C01", "C09", "C11", "C15",), "PyKernel.__init__": ("C01", "C09", "C11",), "PyKernel._call_kernel": ("C01", "C06", "C09", "C11", "C14",),
+        "PyModel.make_kernel": ("C09",), "PyInput.__init__": ("C01", "C03", "C04", "C09", "C10", "C11", "C15", "C19"), "PyKernel.__init__": ("C01", "C09", "C11",), "PyKernel._call_kernel": ("C01", "C06", "C09", "C11", "C14",),
         "_loops": ("C01", "C09", "C11", "C14",), "_create_default_functions": ("C09", "C11",), "_create_vector_Iq": ("C09", "C11",), "_create_vector_Iqxy": ("C09", "C11",),
     },
     "sasview_model": { "SasviewModel.getParamList": ("C10",), "SasviewModel.getDispParamList": ("C10",), "SasviewModel.is_fittable": ("C10",), "SasviewModel.calculate_ER": ("C10", "C14",), "SasviewModel.calculate_VR": ("C10", "C14",), "SasviewModel._dispersion_mesh": ("C10",), "SasviewModel.calc_composition_models": ("C10",), "MultiplicationModel": ("C07", "C10",), "SasviewModel.__get_state__": ("C11",), "SasviewModel.__set_state__": ("C11",), "find_model": ("C10",), "load_standard_models": ("C10",), "reset_environment": ("C11", "C17",),
